@@ -19,6 +19,23 @@ BASES = {
     'nodes': dict(kind='nodes', M=3, QI='MIN-SR-S', nsteps=2, maxiter=3),
     'nodes_ml': dict(kind='nodes', M=2, L=2, problem='heat', QI='MIN', nsteps=2, maxiter=2),
 }
+# time x node process grid (controller_MPI over the time communicator, node-parallel sweeper over the node communicator)
+BASE_ST = dict(kind='spacetime', P=2, M=2, QI='MIN', nsteps=3, maxiter=2)
+DIMS_ST = {
+    'jac': [True, False],
+    'P': [2, 3],
+    'M': [2, 3],
+    'L': [1, 2],
+    'all_to_done': [False, True],
+    'problem': ['dahlquist', 'heat', 'imex'],
+    'QI': ['MIN', 'IEpar', 'MIN-SR-S'],
+    'residual_type': ['full_abs', 'last_rel'],
+    'initial_guess': ['spread', 'zero'],
+    'restol': [1e-8, 1e-3, -1.0],
+    'maxiter': [2, 1, 4],
+    'nsteps': [3, 2, 5],
+    'predict': [None, 'pfasst_burnin'],
+}
 
 DIMS_TIME = {
     'P': [3, 1, 2, 4],
@@ -190,10 +207,12 @@ def run(rep, tier):
         small += [dict(mh.default_cfg(kind='time', P=2, L=2, predict='pfasst_burnin', nsteps=2, maxiter=1), **MODES[0])]
         small += [dict(mh.default_cfg(kind='nodes', M=2, QI='MIN', nsteps=1, maxiter=1), **MODES[1])]
         plan.append(('three smallest configurations, every schedule with <= 2 deviations', small, 2))
-        st = [dict(mh.default_cfg(kind='spacetime', P=2, M=2, QI='MIN', nsteps=3, maxiter=2), **m) for m in MODES[:2]]
-        plan.append(('2 x 2 space-time grid, <= 1 deviation', st, 1))
+        st = [dict(mh.default_cfg(**dict(BASE_ST, jac=j)), **m) for j in (True, False) for m in MODES[:2]]
+        plan.append(('2 x 2 space-time grid (Jacobi and Gauss-Seidel coupling), every schedule with <= 1 deviation', st, 1))
     else:
-        plan.append(('2 x 2 space-time grid, canonical schedule', [dict(mh.default_cfg(kind='spacetime', P=2, M=2, QI='MIN', nsteps=3, maxiter=2), **m) for m in MODES[:2]], 0))
+        plan.append(('2 x 2 space-time grid (Jacobi and Gauss-Seidel coupling), every schedule with <= 1 deviation', [dict(mh.default_cfg(**dict(BASE_ST, jac=j)), **MODES[0]) for j in (True, False)], 1))
+    st_ball = [dict(c, **m) for c in ball(BASE_ST, DIMS_ST, 1 if tier == 'quick' else 2) for m in (MODES[:2] if tier == 'quick' else MODES)]
+    plan.append(('space-time grid configuration ball, canonical schedule', st_ball, 0))
     bounds = []
     for label, vs, bound in plan:
         res = _e1.explore_variants(rep, make, vs, bound=bound, label=label, probe=(bound > 0))
